@@ -53,7 +53,7 @@ def main():
                 needs = [l.strip(' -*') for l in text.splitlines() if re.search(r'need|manifest|trigger', l, re.I)]
                 meta = {'id': sid, 'breaks_property': prop,
                         'needs_to_manifest': (' '.join(needs)[:400] if needs else text.strip().splitlines()[0][:300]),
-                        'origin': 'written by an independent sub-agent (sixth round) that was given only the property text, the conditions of earlier changes to avoid, and its own scratch worktree',
+                        'origin': 'written by an independent sub-agent (seventh round) that was given only the property text, the conditions of earlier changes to avoid, and its own scratch worktree',
                         'rebased_onto_later_fix_commits': False,
                         'confirmed': {'how': 'tools/import_seeds.py: git apply in a scratch worktree of /repo HEAD; 81 repository tests; demo.py with PYTHONPATH=<worktree>/src',
                                       'tests_with_change': t, 'demo_exit_with_change': r1, 'demo_exit_without_change': r0}}
